@@ -194,6 +194,39 @@ impl Ctx {
     fn full(&self) -> bool { self.findings.len() >= self.max }
 }
 
+/// C02 asked of the REAL crate alone (no oracle): on an input where a disagreement was found, a decided answer must survive
+/// appended bytes, and every shorter prefix must be Partial or already give that same answer.
+fn stability_probe(ctx: &mut Ctx, family: &'static str, buf: &[u8], cfgb: u8, cap: usize) {
+    let eval = |b: &[u8]| -> Outcome {
+        let arena = with_tail(b);
+        let b = &arena[..b.len()];
+        match family {
+            "request" => real_request(b, Cfg::from_bits(cfgb), cap, 0).outcome,
+            "response" => real_response(b, Cfg::from_bits(cfgb), cap, 0).outcome,
+            "headers" => { let mut arr = vec![httparse::Header { name: SENT_NAME, value: SENT_VAL }; cap];
+                           match httparse::parse_headers(b, &mut arr[..]) { Ok(httparse::Status::Complete((n, _))) => Outcome::Complete(n), Ok(httparse::Status::Partial) => Outcome::Partial, Err(e) => Outcome::Err(kind_of(e)) } }
+            _ => match httparse::parse_chunk_size(b) { Ok(httparse::Status::Complete((n, _))) => Outcome::Complete(n), Ok(httparse::Status::Partial) => Outcome::Partial, Err(_) => Outcome::Err(Kind::Token) },
+        }
+    };
+    let whole = eval(buf);
+    let mut report = |ctx: &mut Ctx, shorter: &[u8], rs: &Outcome, longer: &[u8], rl: &Outcome| {
+        ctx.add(Finding { stage: "any", gen: "", family, oracle: "stability".into(), entry: format!("{} (same entry point, a buffer and an extension of it)", family), cfg: cfgb, cap,
+            input: longer.to_vec(), real: format!("{:?} on these {} bytes, but {:?} on their first {} bytes", rl, longer.len(), rs, shorter.len()),
+            expected: "a Complete/Err answer is unchanged by appended bytes; before it only Partial".into() });
+    };
+    if whole != Outcome::Partial {
+        for ext in [&b"BBBBBBBBBBBBBBBBBBBBBBBBBBBBBBBBBBBBBBBBBBBBBBBBBBBBBBBBBBBBBBBB"[..], b"\r\n\r\n", b" ", b"x"] {
+            let mut l = buf.to_vec(); l.extend_from_slice(ext);
+            let rl = eval(&l);
+            if rl != whole { report(ctx, buf, &whole, &l, &rl); return; }
+        }
+    }
+    for k in 0..buf.len() {
+        let rk = eval(&buf[..k]);
+        if rk != Outcome::Partial && rk != whole { report(ctx, &buf[..k], &rk, buf, &whole); return; }
+    }
+}
+
 fn hdrs_match(real: &[(Option<(usize, usize)>, Option<(usize, usize)>, usize)], exp: &[SHdr]) -> bool {
     real.len() == exp.len() && real.iter().zip(exp).all(|(r, e)| r.0 == Some((e.name_lo, e.name_hi)) && (if e.val_hi > e.val_lo { r.1 == Some((e.val_lo, e.val_hi)) } else { r.2 == 0 }))
 }
@@ -219,6 +252,7 @@ fn check_request(ctx: &mut Ctx, buf: &[u8], cfgb: u8, cap: usize) {
         if !bad.is_empty() {
             let stage = if exp.version.is_some() && real.version.is_some() && !matches!(exp.outcome, Outcome::Err(Kind::NewLine)) { "headers" } else { "startline" };
             ctx.add(Finding { stage, gen: "", family: "request", oracle: bad.join("+"), entry: ename.into(), cfg: cfgb, cap, input: buf.to_vec(), real: format!("{:?}", real), expected: format!("{:?}", exp) });
+            if entry == 0 && !ctx.full() { stability_probe(ctx, "request", buf, cfgb, cap); }
         }
     }
 }
@@ -248,6 +282,7 @@ fn check_response(ctx: &mut Ctx, buf: &[u8], cfgb: u8, cap: usize) {
         if !bad.is_empty() {
             let stage = if exp.reason.is_some() && real.reason.is_some() { "headers" } else { "startline" };
             ctx.add(Finding { stage, gen: "", family: "response", oracle: bad.join("+"), entry: ename.into(), cfg: cfgb, cap, input: buf.to_vec(), real: format!("{:?}", real), expected: format!("{:?}", exp) });
+            if entry == 0 && !ctx.full() { stability_probe(ctx, "response", buf, cfgb, cap); }
         }
     }
 }
@@ -265,7 +300,8 @@ fn check_headers(ctx: &mut Ctx, buf: &[u8], cap: usize) {
         (Err(e), SRes::Err(k)) => (format!("Err({:?})", e), kind_of(*e) == *k),
         (r, _) => (format!("{:?}", r.as_ref().map(|s| match s { httparse::Status::Complete((n, hs)) => format!("Complete({}, {} headers)", n, hs.len()), httparse::Status::Partial => "Partial".into() })), false),
     };
-    if !ok { ctx.add(Finding { stage: "headers", gen: "", family: "headers", oracle: "parse_headers".into(), entry: "parse_headers".into(), cfg: 0, cap, input: buf.to_vec(), real: real_s, expected: format!("{:?}", exp) }); }
+    if !ok { ctx.add(Finding { stage: "headers", gen: "", family: "headers", oracle: "parse_headers".into(), entry: "parse_headers".into(), cfg: 0, cap, input: buf.to_vec(), real: real_s, expected: format!("{:?}", exp) });
+             if !ctx.full() { stability_probe(ctx, "headers", buf, 0, cap); } }
 }
 fn check_chunk(ctx: &mut Ctx, buf: &[u8]) {
     let arena = with_tail(buf);
@@ -280,7 +316,8 @@ fn check_chunk(ctx: &mut Ctx, buf: &[u8]) {
         (Err(_), SChunk::Invalid) => true,
         _ => false,
     };
-    if !ok { ctx.add(Finding { stage: "chunk", gen: "", family: "chunk", oracle: "parse_chunk_size".into(), entry: "parse_chunk_size".into(), cfg: 0, cap: 0, input: buf.to_vec(), real: format!("{:?}", r), expected: format!("{:?}", exp) }); }
+    if !ok { ctx.add(Finding { stage: "chunk", gen: "", family: "chunk", oracle: "parse_chunk_size".into(), entry: "parse_chunk_size".into(), cfg: 0, cap: 0, input: buf.to_vec(), real: format!("{:?}", r), expected: format!("{:?}", exp) });
+             if !ctx.full() { stability_probe(ctx, "chunk", buf, 0, 0); } }
 }
 
 /// all strings over `alpha` of length 0..=maxlen, each appended to `prefix` and followed by `suffix`
@@ -922,6 +959,11 @@ fn main() {
             "response" => { check_response(&mut ctx, &buf, cfgb, cap); println!("real: {:?}\noracle: {:?}", real_response(&buf, Cfg::from_bits(cfgb), cap, 0), spec_response(&buf, Cfg::from_bits(cfgb), cap)); }
             _ => { check_headers(&mut ctx, &buf, cap); println!("oracle: {:?}", spec_hdrs(&buf, 0, HCfg::default(), cap)); }
         }
+        // a recorded stability finding (C02) is a pair buffer / extension on the real crate alone: ask again
+        let fam: &'static str = match args[2].as_str() { "chunk" => "chunk", "request" => "request", "response" => "response", _ => "headers" };
+        let before = ctx.findings.len();
+        stability_probe(&mut ctx, fam, &buf, cfgb, cap);
+        for f in &ctx.findings[before..] { println!("stability: {}", f.real); }
         ctx.print();
         std::process::exit(if ctx.findings.is_empty() { 0 } else { 1 });
     }
